@@ -1096,8 +1096,9 @@ class Reaction(Object):
         Reaction
             Returns the same reaction modified in place.
         """
+        old_metabolites = self._metabolites
         self._metabolites = {
-            met: value * coefficient for met, value in self._metabolites.items()
+            met: value * coefficient for met, value in old_metabolites.items()
         }
 
         if coefficient < 0:
@@ -1108,8 +1109,11 @@ class Reaction(Object):
 
         context = get_context(self)
         if context:
+            # put the previous stoichiometry back as it was (exact, and also
+            # possible after scaling by zero) and write the solver rows again;
+            # the bounds are reset by their own setter
             context(partial(self._model._populate_solver, [self]))
-            context(partial(self.__imul__, 1.0 / coefficient))
+            context(partial(setattr, self, "_metabolites", old_metabolites))
 
         return self
 
